@@ -467,6 +467,35 @@ func init() {
 			return rc
 		}})
 
+	// the same histories under the differential oracle of C01: whatever an owner change of a twice-declared path
+	// leaves behind must equal what a fresh controller builds
+	register(&Profile{Name: "churn-dup-owner", Prop: "C01", Weight: 1,
+		Oracles: OracleSet{Property: "C01", FreshAtSync: true, EffectiveAtSync: true},
+		Build: func(seed uint64, tier string) *RunConfig {
+			r := cfgRng(seed)
+			mn, mx := tierOps(tier, 6, 18)
+			ctl := sampleCtl(r)
+			if ctl.DefaultService != "" {
+				// part of the narrowed constraint: the backend of --default-backend-service exists from the start,
+				// so it must not be a service behind a twice-declared path
+				ctl.DefaultService = "a/dflt"
+			}
+			rc := &RunConfig{Property: "C01", Profile: "churn-dup-owner", Seed: seed, Ctl: ctl, MapOrder: r.IntN(2) == 0, Lagfree: r.IntN(3) == 0, MidSched: r.IntN(2) == 0,
+				IgnoreAvoid: []string{"no_dup_paths"}, ExtraAvoid: []string{"dup_paths_exclusive_service"}}
+			w := map[string]int{}
+			for k, v := range defaultWeights {
+				w[k] = v
+			}
+			w["class_change"] = 0
+			w["ing_create"], w["ing_delete"], w["ing_update"] = 14, 12, 8
+			rc.World, rc.Ops = GenerateRun(seed, GenOptions{Sparse: true, IngressKeys: []string{"balance-algorithm", "timeout-server", "ssl-redirect", "hsts"},
+				GlobalKeys: []string{"ssl-redirect", "drain-support", "timeout-client"},
+				Hosts:      []string{"app.local", "api.local"}, Paths: []string{"/app", "/app", "/"}, MinOps: mn, MaxOps: mx, QuiesceEvery: pickInt(r, 2, 4), KeysPerRun: 3, W: w, NoForeignClass: true,
+				NoOwnHost: true, NoTLS: r.IntN(4) != 0, NoDefaultBackend: true,
+				IgnoreAvoid: []string{"no_dup_paths"}, ExtraAvoid: []string{"dup_paths_exclusive_service"}, MaxIngresses: 6})
+			return rc
+		}})
+
 	// static variant: no history, so duplicated declarations (creation-time conflict
 	// resolution) can be generated without reaching the recorded owner-change finding
 	register(&Profile{Name: "routing-static", Prop: "C03", Weight: 1,
